@@ -328,13 +328,13 @@ def receiver_stage(run, focus, classes, selftest, what, suggest=True, binary=Non
     sims = run.path("sims_%s.ndjson" % focus)
     run.vh("simtable", run.path("names_%s.json" % focus), sims)      # strsim::jaro_winkler, the metric the code delegates to
     res = run.tlc("MC_Receiver", RECV_CFG, "recv_" + focus, workers=8,
-                  env={"CORPUS": nd, "SIMS": sims, "SUGGEST": "on" if suggest else "off"}, timeout=3000)
+                  env={"CORPUS": nd, "SIMS": sims, "SUGGEST": "on" if suggest else "off"}, timeout=7200)
     if not res["ok"]:
         # the operational machine disagrees with the declarative reading of the property on some input:
         # the machine is bound to the code by replay, so this is reported with TLC's own counterexample
         tail = run.tlc_tail(res, 60)
         raise ToolError("TLC: the receiver machine violates a declarative invariant (%s):\n%s" % (what, tail[-3000:]))
-    r = run.vh("replay", res["out"], binary=binary or VHC, timeout=3000)
+    r = run.vh("replay", res["out"], binary=binary or VHC, timeout=7200)
     keep = [m for m in r.get("prop", []) if set(m["classes"]) & set(classes)]
     dropped = r.get("prop_mismatch", 0) - len(keep)
     r2 = dict(r, prop=keep, prop_mismatch=len(keep))
@@ -420,7 +420,7 @@ def receiver_trace_stage(run, selftest, events):
     tr = run.path("recv_trace.ndjson")
     rr = run.vh("record", nd, vlib.seed() + 7, events, tr, binary=VHC)
     env = {"CORPUS": nd, "SIMS": sims, "SUGGEST": "on", "TRACE": tr}
-    res = run.tlc("Trace_Receiver", RECV_TRACE_CFG, "recv_trace", workers=1, deque=True, env=env, timeout=3000)
+    res = run.tlc("Trace_Receiver", RECV_TRACE_CFG, "recv_trace", workers=1, deque=True, env=env, timeout=7200)
     if not res["ok"]:
         tail = run.tlc_tail(res, 14)
         run.violation("trace:receiver", "a recorded execution of a derived receiver is not the behaviour Receiver.tla / ReceiverProps.tla allow: " + tail[-1500:],
@@ -439,7 +439,7 @@ def receiver_trace_stage(run, selftest, events):
             raise ToolError("selftest: no failing event with two leaves")
         vlib.corrupt_ndjson(tr, bad, mut)
         env2 = dict(env, TRACE=bad)
-        res = run.tlc("Trace_Receiver", RECV_TRACE_CFG, "recv_trace_bad", workers=1, deque=True, env=env2, expect_fail=True, timeout=3000)
+        res = run.tlc("Trace_Receiver", RECV_TRACE_CFG, "recv_trace_bad", workers=1, deque=True, env=env2, expect_fail=True, timeout=7200)
         if res["ok"]:
             raise ToolError("selftest: a corrupted receiver trace (one error leaf dropped) was accepted")
         run.notes.append("selftest trace-corruption (one observed error leaf dropped): rejected")
@@ -469,7 +469,7 @@ def c02(run, selftest=True):
     run.build()
     res = run.tlc("Body", BODY_CFG % ((4, 2) if q else (5, 3)), "body", workers=4)
     run.require_tlc_ok(res, "Body (all bodies within bounds)")
-    r = run.vh("replay-body", res["out"], binary=VHC, timeout=3000)
+    r = run.vh("replay-body", res["out"], binary=VHC, timeout=7200)
     own = ("accepted a body with failing members", "rejected a body whose members all convert", "failures reported at", "panicked")
     keep = [m for m in r.get("prop", []) if any(any(o in w for o in own) for w in m.get("why", []))]
     run.add_replay_result("body", dict(r, prop=keep, prop_mismatch=len(keep)))
@@ -516,7 +516,7 @@ def c14(run, selftest=True):
     q = run.tier == "quick"
     res = run.tlc("MC_Maps", MAPS_CFG % ("MCKeys", 4 if q else 5), "maps_exh", workers=4 if q else 8)
     run.require_tlc_ok(res, "Maps (exhaustive)")
-    r = run.vh("replay", "maps", res["out"], timeout=3000)
+    r = run.vh("replay", "maps", res["out"], timeout=7200)
     run.add_replay_result("maps", r)
     if selftest:
         def flip(case):
@@ -530,7 +530,7 @@ def c14(run, selftest=True):
     # longer lists, wider key alphabet: random walks of the same spec
     res = run.tlc("MC_Maps", MAPS_CFG % ("MCKeysWide", 12), "maps_sim", workers=1, simulate=400 if q else 20000, depth=14)
     run.require_tlc_ok(res, "Maps (simulate)")
-    r = run.vh("replay", "maps", res["out"], timeout=3000)
+    r = run.vh("replay", "maps", res["out"], timeout=7200)
     run.add_replay_result("maps", r)
     os.remove(res["out"])
     run.exhaustive = True
@@ -559,10 +559,11 @@ def c07(run, selftest=True):
     run.vh("fragments", frags)
     for module, spec_name, cfg, env in (("syntargets", "SynTargets", simple_cfg("C13_Matrix EmitDone"), {"FRAGMENTS": frags}),
                                        ("scalars", "Scalars", simple_cfg("C11_Exact EmitDone"), None),
-                                       ("scalarforms", "ScalarForms", simple_cfg("C11_Forms EmitDone"), None)):
+                                       ("scalarforms", "ScalarForms", simple_cfg("C11_Forms EmitDone"), None),
+                                       ("sequences", "SeqTargets", simple_cfg("Seq_FirstError EmitDone", "  MaxLen = 2\n"), None)):
         res = run.tlc(spec_name, cfg, "c07_" + module, workers=4, env=env)
         run.require_tlc_ok(res, spec_name)
-        r = run.vh("replay", module, res["out"], timeout=3000)
+        r = run.vh("replay", module, res["out"], timeout=7200)
         keep = [m for m in r.get("prop", []) if any("panicked" in w for w in m.get("why", []))]
         run.add_replay_result(module, dict(r, prop=keep, prop_mismatch=len(keep)))
         os.remove(res["out"])
@@ -635,7 +636,7 @@ def shapes_stage(run, selftest, only_panics=False):
     # 2. the compiled family x all bodies, replayed on derived code; the stand-alone API exhaustively
     res = run.tlc("MC_Shapes", SHAPES_CFG % ("CompiledFamilies", 3 if q else 4, "TRUE"), "shapes_family", workers=4, env={"FAMILY": nd})
     run.require_tlc_ok(res, "Shapes (compiled family)")
-    r = run.vh("replay-shapes", res["out"], binary=VHC, timeout=3000)
+    r = run.vh("replay-shapes", res["out"], binary=VHC, timeout=7200)
     if only_panics:
         keep = [m for m in r.get("prop", []) if any("panicked" in w for w in m.get("why", []))]
         r = dict(r, prop=keep, prop_mismatch=len(keep))
@@ -712,7 +713,7 @@ def c16(run, selftest=True):
     run.build()
     res = run.tlc("Body", BODY_CFG % ((4, 2) if q else (5, 3)), "body", workers=4 if q else 8)
     run.require_tlc_ok(res, "Body (all bodies within bounds)")
-    r = run.vh("replay-body", res["out"], binary=VHC, timeout=3000)
+    r = run.vh("replay-body", res["out"], binary=VHC, timeout=7200)
     run.add_replay_result("body", r)
     if selftest:
         tag = '<<"REPLAY", '
@@ -737,7 +738,7 @@ def c16(run, selftest=True):
     # the `generics` member / FromGenerics: parameter lists drawn one at a time
     gres = run.tlc("Generics", simple_cfg("Gen_OneToOne Gen_TypeParams Gen_Infallible EmitDone", "  MaxParams = %d\n" % (3 if q else 4)), "generics", workers=4)
     run.require_tlc_ok(gres, "Generics")
-    gr = run.vh("replay", "generics", gres["out"], timeout=3000)
+    gr = run.vh("replay", "generics", gres["out"], timeout=7200)
     run.add_replay_result("generics", gr)
     if selftest:
         def swap_kind(case):
@@ -811,7 +812,7 @@ def c15(run, selftest=True):
     # A. the list grammar: every token-class string up to the bound (contains every single-token mutation of every valid shorter list)
     res = run.tlc("NestedMetaGrammar", NMG_CFG % (5 if q else 6), "nmg", workers=8)
     run.require_tlc_ok(res, "NestedMetaGrammar")
-    r = run.vh("replay", "nmg", res["out"], timeout=3000)
+    r = run.vh("replay", "nmg", res["out"], timeout=7200)
     run.add_replay_result("nmg", r)
     if selftest:
         def flip(case):
@@ -824,7 +825,7 @@ def c15(run, selftest=True):
     # B. routing: all 2^7 override sets x all item forms x three probe behaviours
     res = run.tlc("MetaRouting", MR_CFG, "routing", workers=4)
     run.require_tlc_ok(res, "MetaRouting")
-    r = run.vh("replay", "routing", res["out"], timeout=3000)
+    r = run.vh("replay", "routing", res["out"], timeout=7200)
     run.add_replay_result("routing", r)
     if selftest:
         def flip2(case):
@@ -864,7 +865,7 @@ def c11(run, selftest=True):
     # 1. the 24 integer targets over symbolic literals (every type boundary +-2, 0, beyond 128 bits) x every spelling
     res = run.tlc("Scalars", simple_cfg("C11_Exact EmitDone"), "scalars", workers=8)
     run.require_tlc_ok(res, "Scalars (symbolic integers)")
-    r = run.vh("replay", "scalars", res["out"], timeout=3000)
+    r = run.vh("replay", "scalars", res["out"], timeout=7200)
     run.add_replay_result("scalars", r)
     if selftest:
         def flip(case):
@@ -878,7 +879,7 @@ def c11(run, selftest=True):
     lo, hi = (-1200, 1200) if q else (-70000, 70000)
     res = run.tlc("ScalarsConcrete", simple_cfg("C11_Exact EmitDone", conc_consts(lo, hi)), "scalars_concrete", workers=8)
     run.require_tlc_ok(res, "ScalarsConcrete")
-    r = run.vh("replay", "scalars-concrete", res["out"], timeout=3000)
+    r = run.vh("replay", "scalars-concrete", res["out"], timeout=7200)
     run.add_replay_result("scalars-concrete", r)
     os.remove(res["out"])
     if q:
@@ -886,13 +887,13 @@ def c11(run, selftest=True):
         for lo2, hi2 in ((-32800, -32700), (32700, 32800), (65500, 65600)):
             res = run.tlc("ScalarsConcrete", simple_cfg("C11_Exact EmitDone", conc_consts(lo2, hi2)), "scalars_concrete_w", workers=2)
             run.require_tlc_ok(res, "ScalarsConcrete (window)")
-            r = run.vh("replay", "scalars-concrete", res["out"], timeout=3000)
+            r = run.vh("replay", "scalars-concrete", res["out"], timeout=7200)
             run.add_replay_result("scalars-concrete", r)
             os.remove(res["out"])
     # 3. forms / literal kinds for every scalar target, float values against std
     res = run.tlc("ScalarForms", simple_cfg("C11_Forms EmitDone"), "scalarforms", workers=2)
     run.require_tlc_ok(res, "ScalarForms")
-    r = run.vh("replay", "scalarforms", res["out"], vlib.seed() + 1, 1500 if q else 40000, timeout=3000)
+    r = run.vh("replay", "scalarforms", res["out"], vlib.seed() + 1, 1500 if q else 40000, timeout=7200)
     run.add_replay_result("scalarforms", r)
     os.remove(res["out"])
     run.assumptions = ["integer literals beyond TLC's 32-bit integers are symbolic (anchor, delta); the harness materialises them with exact decimal arithmetic",
@@ -931,7 +932,7 @@ def c12(run, selftest=True):
         run.require_tlc_ok(res, "Wrappers (three levels, spec only)")
     res = run.tlc("Wrappers", WR_CFG % (2, "TRUE"), "wrappers", workers=8)
     run.require_tlc_ok(res, "Wrappers")
-    r = run.vh("replay", "wrappers", res["out"], timeout=3000)
+    r = run.vh("replay", "wrappers", res["out"], timeout=7200)
     run.add_replay_result("wrappers", r)
     if selftest:
         def flip(case):
@@ -982,7 +983,7 @@ def c13(run, selftest=True):
     run.extra["fragments"] = info["fragments"]
     res = run.tlc("SynTargets", simple_cfg("C13_Matrix EmitDone"), "syntargets", workers=4, env={"FRAGMENTS": frags})
     run.require_tlc_ok(res, "SynTargets")
-    r = run.vh("replay", "syntargets", res["out"], timeout=3000)
+    r = run.vh("replay", "syntargets", res["out"], timeout=7200)
     run.add_replay_result("syntargets", r)
     if selftest:
         def flip(case):
@@ -996,7 +997,7 @@ def c13(run, selftest=True):
     q = run.tier == "quick"
     res = run.tlc("SeqTargets", simple_cfg("Seq_FirstError EmitDone", "  MaxLen = %d\n" % (3 if q else 4)), "seqtargets", workers=4)
     run.require_tlc_ok(res, "SeqTargets")
-    r = run.vh("replay", "sequences", res["out"], timeout=3000)
+    r = run.vh("replay", "sequences", res["out"], timeout=7200)
     run.add_replay_result("sequences", r)
     if selftest:
         def flip2(case):
@@ -1046,16 +1047,16 @@ DO_FOCUS = {
     # every variant option, pairs on the first variant and one on the second, with and without container from_word
     "enum": dict(derives="EnumDerives", shapes="EnumShapes", citems="ContainerSmall", fitems="FieldAlphaSmall", vitems="VariantAlpha", mc=1, mf1=0, mf2=0, mv1=2, mv2=2),
     # options on the field of a struct variant (live, skipped, `skip = false`): all singles and ordered pairs
-    "vfield": dict(derives="EnumDerives", shapes="EnumShapes", citems="ContainerSmall", fitems="FieldAlpha", vitems="VFieldVariant", mc=0, mf1=2, mf2=0, mv1=1, mv2=0),
+    "vfield": dict(derives="EnumDerives", shapes="EnumShapes", citems="ContainerSmall", fitems="FieldAlpha", vitems="VFieldVariant", mc=0, mf1=1, mf2=1, mv1=1, mv2=1),
     # every field option in every form: all singles, ordered pairs and ordered triples on one field, one more on a second field
     "field": dict(derives="FieldDerives", shapes="FieldShapes", citems="ContainerSmall", fitems="FieldAlpha", vitems="VariantAlpha", mc=0, mf1=3, mf2=1, mv1=0, mv2=0),
 }
 
 
 def deriveopts_stage(run, focus, keep, selftest):
-    res = run.tlc("MC_DeriveOptions", DO_CFG % DO_FOCUS[focus], "do_" + focus, workers=8, timeout=3000)
+    res = run.tlc("MC_DeriveOptions", DO_CFG % DO_FOCUS[focus], "do_" + focus, workers=8, timeout=7200)
     run.require_tlc_ok(res, "DeriveOptions (%s)" % focus)
-    r = run.vh("replay", "deriveopts", res["out"], timeout=3000)
+    r = run.vh("replay", "deriveopts", res["out"], timeout=7200)
     kept = [m for m in r.get("prop", []) if keep(m)]
     r2 = dict(r, prop=kept, prop_mismatch=len(kept))
     run.add_replay_result("deriveopts/" + focus, r2)
@@ -1102,7 +1103,7 @@ def deriveopts_trace_stage(run, selftest, events, totality_only=False):
         run.traces += rr["runs"]
         run.trace_events += rr["events"]
         return
-    res = run.tlc("Trace_DeriveOptions", DO_TRACE_CFG, "do_trace", workers=1, deque=True, env={"TRACE": tr}, timeout=3000)
+    res = run.tlc("Trace_DeriveOptions", DO_TRACE_CFG, "do_trace", workers=1, deque=True, env={"TRACE": tr}, timeout=7200)
     drift = sum(1 for line in open(res["out"], errors="replace") if line.startswith('<<"DRIFT"'))
     if drift:
         run.notes.append("deriveopts trace: %d recorded declarations where the machine predicts another number of diagnostics (model drift)" % drift)
@@ -1126,7 +1127,7 @@ def deriveopts_trace_stage(run, selftest, events, totality_only=False):
                     return
             raise ToolError("selftest: no accepted declaration in the trace")
         vlib.corrupt_ndjson(tr, bad, mut)
-        res = run.tlc("Trace_DeriveOptions", DO_TRACE_CFG, "do_trace_bad", workers=1, deque=True, env={"TRACE": bad}, expect_fail=True, timeout=3000)
+        res = run.tlc("Trace_DeriveOptions", DO_TRACE_CFG, "do_trace_bad", workers=1, deque=True, env={"TRACE": bad}, expect_fail=True, timeout=7200)
         if res["ok"]:
             raise ToolError("selftest: a corrupted derive trace (an accepted declaration recorded as rejected) was accepted")
         run.notes.append("selftest trace-corruption (an accepted declaration recorded as rejected): rejected")
@@ -1176,9 +1177,9 @@ def c19(run, selftest=True):
     run.build()
     q = run.tier == "quick"
     res = run.tlc("Usage", "SPECIFICATION Spec\nCONSTANTS\n  MaxDepth = %d\n  EMIT = TRUE\nINVARIANTS C19_Exact C19_Union C19_Lifetimes EmitAll\nCHECK_DEADLOCK FALSE\n" % (3 if q else 4),
-                  "usage", workers=8, timeout=3000)
+                  "usage", workers=8, timeout=7200)
     run.require_tlc_ok(res, "Usage")
-    r = run.vh("replay", "usage", res["out"], timeout=3000)
+    r = run.vh("replay", "usage", res["out"], timeout=7200)
     run.add_replay_result("usage", r)
     if selftest:
         def flip(case):
@@ -1191,7 +1192,7 @@ def c19(run, selftest=True):
     os.remove(res["out"])
     res = run.tlc("ImplBounds", simple_cfg("C19_Bounds EmitDone"), "implbounds", workers=2)
     run.require_tlc_ok(res, "ImplBounds")
-    r = run.vh("replay", "implbounds", res["out"], timeout=3000)
+    r = run.vh("replay", "implbounds", res["out"], timeout=7200)
     run.add_replay_result("implbounds", r)
     os.remove(res["out"])
     run.assumptions = ["type terms are printed as Rust and parsed with syn; `for<..>` binders never reuse a declared lifetime's name (Rust forbids the shadowing)",
@@ -1214,10 +1215,21 @@ def c20(run, selftest=True):
     import re
     import subprocess
     q = run.tier == "quick"
-    run.build()           # also compiles the whole generated receiver corpus (C01/C09/C16 option space) against the working tree
+    # the harness itself declares ~400 receivers (the corpus of C01 / C09, the shape and body families of C16 / C18): when the
+    # code the derives emit for one of THEM stops compiling, that is this property's violation, not a tool error
+    try:
+        run.build()
+    except ToolError as e:
+        msg = str(e)
+        if "derive macro" in msg or "proc-macro derive" in msg or "/harness/gen/" in msg or "src/gen/" in msg or "gen/corpus_gen.rs" in msg or "gen/body_gen.rs" in msg or "gen/shapes_gen.rs" in msg:
+            first = next((l for l in msg.splitlines() if l.startswith("error")), "error")
+            run.violation("c20:harness-receivers:" + first[:200], "a receiver of the harness's own corpus no longer compiles with the emitted implementation: " + first[:300],
+                          {"module": "c20", "case": {"source": "harness/gen/*.rs (generated corpus)", "derive": "", "shape": ""}, "why": msg.splitlines()[-25:]})
+            return run.finish("exploration", "harness build")
+        raise
     outs = []
     for fo in ("field", "cont", "enum", "vfield"):
-        res = run.tlc("MC_DeriveOptions", DO_CFG % DO_FOCUS[fo], "c20_" + fo, workers=8, timeout=3000)
+        res = run.tlc("MC_DeriveOptions", DO_CFG % DO_FOCUS[fo], "c20_" + fo, workers=8, timeout=7200)
         run.require_tlc_ok(res, "DeriveOptions (%s)" % fo)
         outs.append(res["out"])
     crate = os.path.join(vlib.VERIF, "c20crate")
